@@ -160,7 +160,16 @@ TOMLS = ["[verify]\nverify_trust = false\n", "[builder.thumbnail]\nenabled = fal
          "[verify]\nverify_after_sign = false\n", "this is not toml ]["]
 BUILDS = [{"json": "{\"verify\":{\"verify_trust\":false}}"}, {"json": "{\"core\":{\"merkle_tree_chunk_size_in_kb\":9}}"}, {"json": "{not json"},
           {"toml": "[builder.thumbnail]\nenabled = false\n"}, {"path": "verify.verify_trust", "value": False}, {"path": "no.such.path", "value": 1},
-          {"json": "{\"trust\":{\"trust_anchors\":\"not a pem\"}}"}]
+          {"json": "{\"trust\":{\"trust_anchors\":\"not a pem\"}}"},
+          # whole sections (JSON tables) through with_value / set_value
+          {"path": "verify", "table": True, "patch": {"verify_after_sign": False, "verify_trust": False}},
+          {"path": "builder.thumbnail", "table": True, "patch": {"enabled": False}},
+          {"path": "core", "table": True, "patch": {"merkle_tree_chunk_size_in_kb": 11}, "set": True},
+          {"path": "verify", "table": True, "patch": {"ocsp_fetch": True}, "set": True}]
+# two contexts whose allow-lists differ: each must refuse the other's host, whoever built its resolver first
+NET_SPECS = [{"settings": {"core": {"allowed_network_hosts": ["127.0.0.1:1"]}}, "no_signer": True},
+             {"settings": {"core": {"allowed_network_hosts": ["127.0.0.2:1"]}}, "no_signer": True}]
+NET_URIS = ["http://127.0.0.1:1/x", "http://127.0.0.2:1/x"]
 INPUTS = {}          # op key -> small integer (model input id)
 
 
@@ -175,7 +184,9 @@ def op_key(op):
     if k == "sign":
         return f"sign:{op['asset']}:{op['title']}"
     if k == "builder":
-        return "builder:" + json.dumps({x: op[x] for x in ("json", "toml", "path", "value") if x in op}, sort_keys=True)
+        return "builder:" + json.dumps({x: op[x] for x in ("json", "toml", "path", "value", "table", "patch", "set") if x in op}, sort_keys=True)
+    if k == "resolve":
+        return "resolve:" + op["uri"]
     if k == "tls_set":
         return "tls_set:" + op["toml"]
     return k
@@ -226,6 +237,36 @@ def gen_case(rng, i, cancel=None):
     return {"id": i, "contexts": [SPECS[s] for s in specs], "spec_ids": specs, "threads": threads, "assets": ASSETS, "shape": shape}
 
 
+def gen_net_case(rng, i):
+    """contexts with different allow-lists, every thread resolves both hosts through one of them; seeded start order"""
+    n = rng.choice([2, 2, 3, 4])
+    order = rng.sample([0, 1], 2)
+    threads = []
+    for t in range(n):
+        c = order[t % 2]
+        prog = [{"op": "resolve", "ctx": c, "uri": u} for u in rng.sample(NET_URIS, 2)]
+        if rng.random() < 0.5:
+            prog.insert(0, {"op": "resolver", "ctx": c})
+        prog[0]["pre_us"] = 0 if t % 2 == 0 else rng.choice([0, 300, 3000])
+        threads.append(prog)
+    return {"id": i, "contexts": NET_SPECS, "spec_ids": [100, 101], "threads": threads, "assets": ASSETS, "shape": "net"}
+
+
+def alone_baseline(keys):
+    """each (spec, operation) alone, on a fresh context in a fresh process: what the operation does when nothing else ever ran"""
+    out = {}
+    for spec_id, op in keys:
+        op = json.loads(op)
+        spec = NET_SPECS[spec_id - 100] if spec_id >= 100 else SPECS[spec_id]
+        o = {k: v for k, v in op.items() if k not in ("pre_us", "yields")}
+        o["ctx"] = 0
+        case = {"id": 0, "contexts": [spec], "spec_ids": [spec_id], "threads": [[o]], "assets": ASSETS, "shape": "alone"}
+        r = common.run_harness("c24", [case])[0]
+        if r.get("r") == "ok" and r["seq"]["ops"]:
+            out[(spec_id, op_key(op))] = r["seq"]["ops"][0]["res"]
+    return out
+
+
 def canon(res, addr_map):
     """result without addresses (replaced by a per-run small id)"""
     r = dict(res)
@@ -244,6 +285,7 @@ def evaluate(ctx, cases, with_model=True):
              "cancelled_results": 0, "overlapping_pairs": 0, "max_parallel": 0, "cell_reads": 0}
     distinct = set()
     models = []
+    need_alone = []
     for c in cases:
         r = impl[c["id"]]
         mi = {k: v for k, v in c.items() if k != "assets"}
@@ -322,6 +364,20 @@ def evaluate(ctx, cases, with_model=True):
                     ctx.report_violation(c, f"thread {key[0]} cancelled context {op['ctx']} and then read is_cancelled() == false", mi)
                 if own_before and op["op"] == "read" and not is_cancelled_res(res):
                     ctx.report_violation(c, f"thread {key[0]} cancelled context {op['ctx']} and a later read on it returned {json.dumps(res)[:200]}", mi)
+        # ---- thread-local values at the end of every thread: same in both runs; untouched where the program has no legacy write
+        for t, prog in enumerate(c["threads"]):
+            ct, st = r["conc"]["tls"][t], r["seq"]["tls"][t]
+            writes = [op_key(o) for o in prog if o["op"] == "tls_set"]
+            if ct != st:
+                ctx.report_violation(c, f"thread {t} ends with different thread-local settings in the concurrent and the sequential run", mi)
+            elif not writes and ct != r.get("main_tls", ct):
+                blame = [op_key(o) for o in prog if o["op"] == "builder"]
+                ctx.report_violation(c, f"thread {t} made no legacy settings call but its thread-local settings changed; settings-builder calls of that thread: {blame}", mi)
+        # ---- operations whose alone-result is known (fresh context, fresh process)
+        for which in ("conc", "seq"):
+            for key, (op, res, can, start, end) in runs[which].items():
+                if op["op"] == "resolve":
+                    need_alone.append((c, mi, which, key, op, res))
         # ---- parallelism actually achieved (coverage only)
         iv = sorted((v[3], v[4], k[0]) for k, v in runs["conc"].items())
         par = 0
@@ -331,6 +387,19 @@ def evaluate(ctx, cases, with_model=True):
             stats["overlapping_pairs"] += live
         stats["max_parallel"] = max(stats["max_parallel"], par)
         models.append((c, runs["conc"], cancelled_ctx, r["conc"]["final"]))
+    if need_alone:
+        base = alone_baseline(sorted({(c["spec_ids"][op["ctx"]], json.dumps({k: v for k, v in op.items() if k not in ("pre_us", "yields", "ctx")}, sort_keys=True)) for c, _, _, _, op, _ in need_alone}))
+        stats["alone_compared"] = 0
+        for c, mi, which, key, op, res in need_alone:
+            b = base.get((c["spec_ids"][op["ctx"]], op_key(op)))
+            if b is None:
+                continue
+            stats["alone_compared"] += 1
+            if b != res:
+                ctx.report_violation(c, f"{which}: thread {key[0]} op {key[1]} ({op_key(op)} through the resolver of context {op['ctx']}, allow-list "
+                                        f"{c['contexts'][op['ctx']]['settings']['core']['allowed_network_hosts']}) gave {json.dumps(res)} but the same request through an equally "
+                                        f"configured context that is alone in its process gives {json.dumps(b)}", mi)
+    models = [m for m in models if m[0]["shape"] != "net"]
     if with_model and models:
         exprs = [model_expr(c, byop) for c, byop, _, _ in models]
         out = common.coq_eval("C24", MODEL_IMPORTS, exprs, shard_size=20)
@@ -455,6 +524,7 @@ def run(ctx):
         cases = corpus()
         n = 40 if ctx.quick() else 450
         cases += [gen_case(ctx.rng, 0) for _ in range(n)]
+        cases += [gen_net_case(ctx.rng, 0) for _ in range(3 if ctx.quick() else 20)]
     for i, c in enumerate(cases):
         c["id"] = i
     stats, distinct = evaluate(ctx, cases)
@@ -470,7 +540,7 @@ def run(ctx):
 
 def search(ctx):
     common.build_harness()
-    cases = [gen_case(ctx.rng, 0) for _ in range(300)]
+    cases = [gen_case(ctx.rng, 0) for _ in range(300)] + [gen_net_case(ctx.rng, 0) for _ in range(10)]
     for i, c in enumerate(cases):
         c["id"] = i
     evaluate(ctx, cases, with_model=False)
